@@ -181,6 +181,25 @@ theorem squashL_eq_of (es : List AnnExpr) (h : ∀ e ∈ es, squash e = e) : squ
     simp only [squashL]
     rw [h e (by simp), ih fun x hx => h x (by simp [hx])]
 
+theorem starCountL_zero (es : List AnnExpr) (h : ∀ e ∈ es, e.starU = false → e.starCount = 0)
+    (hs : AnnExpr.starUL es = false) : AnnExpr.starCountL es = 0 := by
+  induction es with
+  | nil => rfl
+  | cons e es ih =>
+    simp only [AnnExpr.starUL, Bool.or_eq_false_iff] at hs
+    simp only [AnnExpr.starCountL, h e (by simp) hs.1, ih (fun x hx => h x (by simp [hx])) hs.2]
+
+/-- no starred member outside strings ⇒ the first pass reports none -/
+theorem starCount_zero (e : AnnExpr) : e.starU = false → e.starCount = 0 := by
+  induction e using annInd with
+  | gen o c args ih | tup o args ih | union args ih =>
+    intro h; simp only [AnnExpr.starU] at h; simp only [AnnExpr.starCount]; exact starCountL_zero _ ih h
+  | bor a b iha ihb =>
+    intro h; simp only [AnnExpr.starU, Bool.or_eq_false_iff] at h
+    simp [AnnExpr.starCount, iha h.1, ihb h.2]
+  | star e ih => intro h; simp [AnnExpr.starU] at h
+  | _ => intro h; simp_all [AnnExpr.starCount, AnnExpr.starU]
+
 theorem isStar_starU {e : AnnExpr} (h : e.starU = false) : e.isStar = false := by
   cases e <;> simp_all [AnnExpr.isStar, AnnExpr.starU]
 
@@ -337,8 +356,8 @@ theorem agree_main (e : AnnExpr) :
     simp only [supp, Bool.and_eq_true] at hs
     simp only [AnnExpr.starU] at hst
     simp only [swapOpt, R13_typingDedup] at hr
-    simp only [astEval, swapOpt, tnorm, rtEval, ih (supp_mono e hs.2) hst hr false, hst]
-    simp
+    simp only [astEval, swapOpt, tnorm, rtEval, ih (supp_mono e hs.2) hst hr false, starCount_zero e hst]
+    simp [errAny]
   | star e ih => intro _ hst; simp [AnnExpr.starU] at hst
   | final e ih | classVar e ih =>
     intro hs hst hr au
@@ -465,6 +484,27 @@ theorem astEvalM_resolveV (look : Lookup) (es : List AnnExpr)
   | cons e es ihl =>
     simp only [resolveVL, astEvalM]
     rw [ih e (by simp) true, ihl fun x hx => ih x (by simp [hx])]
+
+theorem starCountL_resolveV (look : Lookup) (es : List AnnExpr)
+    (h : ∀ e ∈ es, (resolveV look e).starCount = e.starCount) :
+    AnnExpr.starCountL (resolveVL look es) = AnnExpr.starCountL es := by
+  induction es with
+  | nil => simp [resolveVL]
+  | cons e es ih =>
+    simp only [resolveVL, AnnExpr.starCountL]
+    rw [h e (by simp), ih fun x hx => h x (by simp [hx])]
+
+theorem starCount_resolveV (look : Lookup) (e : AnnExpr) : (resolveV look e).starCount = e.starCount := by
+  induction e using annInd with
+  | gen o c args ih | tup o args ih | union args ih =>
+    simp only [resolveV, AnnExpr.starCount]; exact starCountL_resolveV look _ ih
+  | bor a b iha ihb => simp [resolveV, AnnExpr.starCount, iha, ihb]
+  | name n =>
+    simp only [resolveV]
+    cases h : look n with
+    | none => rfl
+    | some t => cases t <;> simp [NameTarget.toAnn, AnnExpr.starCount]
+  | _ => simp_all [resolveV, AnnExpr.starCount]
 
 theorem starUL_resolveV (look : Lookup) (es : List AnnExpr)
     (h : ∀ e ∈ es, (resolveV look e).starU = e.starU) :
@@ -828,7 +868,7 @@ theorem astEval_resolveV (look : Lookup) (e : AnnExpr) :
   | union args ih => intro au; simp only [resolveV, astEval, astEvalL_resolveV look _ ih]
   | tup o args ih => intro au; simp only [resolveV, astEval, astEvalM_resolveV look _ ih]
   | bor a b iha ihb => intro au; simp only [resolveV, astEval, iha false, ihb false]
-  | unpack e ih => intro au; simp only [resolveV, astEval, ih false, starU_resolveV]
+  | unpack e ih => intro au; simp only [resolveV, astEval, ih false, starCount_resolveV]
   | tupV o e ih | typ o e ih | ann e k ih | final e ih | classVar e ih | opt e ih =>
     intro au; simp only [resolveV, astEval, ih false]
   | name n =>
